@@ -421,10 +421,10 @@ fn consumed<C: Suite>(ctx: &mut Ctx, run: &DkgRun<C>, ids: &[Identifier<C>], n: 
     few.remove(&k0);
     let mut own = full.clone();
     own.insert(me, run.r1_pkgs[&me].clone());
-    let refresh_sec = refresh::refresh_dkg_part1::<C, _>(me, n, t, &mut *rng).ok().map(|x| x.0);
+    let refresh_sec = C::api_refresh_dkg_part1(me, n, t, &mut *rng).ok().map(|x| x.0);
     let mut refresh_inbox = BTreeMap::new();
     for id in ids.iter().filter(|i| **i != me) {
-        if let Ok((_, pk)) = refresh::refresh_dkg_part1::<C, _>(*id, n, t, &mut *rng) {
+        if let Ok((_, pk)) = C::api_refresh_dkg_part1(*id, n, t, &mut *rng) {
             refresh_inbox.insert(*id, pk);
         }
     }
@@ -443,11 +443,11 @@ fn consumed<C: Suite>(ctx: &mut Ctx, run: &DkgRun<C>, ids: &[Identifier<C>], n: 
         am::reset_hits();
         am::set_mode(am::ARMED);
         let r = match (func, variant) {
-            ("dkg::part2", "ok") => dkg::part2::<C>(c, &full).map(|_| ()),
-            ("dkg::part2", "too-few-packages") => dkg::part2::<C>(c, &few).map(|_| ()),
-            ("dkg::part2", _) => dkg::part2::<C>(c, &own).map(|_| ()),
-            (_, "ok") => refresh::refresh_dkg_part2::<C>(c, &refresh_inbox).map(|_| ()),
-            _ => refresh::refresh_dkg_part2::<C>(c, &BTreeMap::new()).map(|_| ()),
+            ("dkg::part2", "ok") => C::api_dkg_part2(c, &full).map(|_| ()),
+            ("dkg::part2", "too-few-packages") => C::api_dkg_part2(c, &few).map(|_| ()),
+            ("dkg::part2", _) => C::api_dkg_part2(c, &own).map(|_| ()),
+            (_, "ok") => C::api_refresh_dkg_part2(c, &refresh_inbox).map(|_| ()),
+            _ => C::api_refresh_dkg_part2(c, &BTreeMap::new()).map(|_| ()),
         };
         am::set_mode(am::OFF);
         let mut missing = 0;
